@@ -13,4 +13,4 @@ rc=$?
 git -C /repo worktree remove --force "$wt"; git -C /repo worktree prune
 grep -E "^VIOLATION|Error|  File|^KNOWN|^INCONCLUSIVE|^\[C" "$out/log" | cut -c1-400 | head -12
 echo "exit=$rc"
-rm -rf "$out"
+[ -n "$KEEP" ] && echo "kept $out" || rm -rf "$out"
